@@ -13,6 +13,28 @@ import (
 	"github.com/pojntfx/stfs/pkg/config"
 )
 
+// stickyErrorReader keeps returning the first error (usually `io.EOF`) of the wrapped reader.
+// The body of an OpenPGP message verifies its integrity code when it reaches the end and
+// reports a "MDC hash mismatch" if it is read again afterwards, which decompressors that
+// probe the end of their input more than once (i.e. parallel bzip2) do.
+type stickyErrorReader struct {
+	r   io.Reader
+	err error
+}
+
+func (s *stickyErrorReader) Read(p []byte) (n int, err error) {
+	if s.err != nil {
+		return 0, s.err
+	}
+
+	n, err = s.r.Read(p)
+	if err != nil {
+		s.err = err
+	}
+
+	return n, err
+}
+
 func Decrypt(
 	src io.Reader,
 	encryptionFormat string,
@@ -42,7 +64,7 @@ func Decrypt(
 			return nil, err
 		}
 
-		return io.NopCloser(r.UnverifiedBody), nil
+		return io.NopCloser(&stickyErrorReader{r: r.UnverifiedBody}), nil
 	case config.NoneKey:
 		return io.NopCloser(src), nil
 	default:
